@@ -621,7 +621,12 @@ func resolveAllProtocolChanges(newEnv, oldEnv *Environment, context *EvolutionCo
 			newProt, ok := newProts[oldProt.GetQualifiedName()]
 			if !ok {
 				// Protocol was removed
-				allProtocolChanges[oldProt.GetQualifiedName()] = &ProtocolRemoved{DefinitionPair{oldProt, dummyDef}}
+				latestDef := dummyDef
+				if latestDef == nil {
+					// The latest version defines nothing at all: locate the warning at the removed protocol
+					latestDef = oldProt
+				}
+				allProtocolChanges[oldProt.GetQualifiedName()] = &ProtocolRemoved{DefinitionPair{oldProt, latestDef}}
 				continue
 			}
 
